@@ -41,7 +41,9 @@ func vrtHarness_C19_roundtrip() {
 		age := time.Duration(vrtBelow(86400))*time.Second + time.Duration(vrtBelow(1000))*time.Millisecond
 		ttl := time.Duration(1+vrtBelow(86400)) * time.Second
 		extra := time.Duration(vrtBelow(86400)) * time.Second
-		it := &item{resp: vrtHdrMsg(vrtU16(), int(vrtU8()&0xf)), storedTime: now.Add(-age), expirationTime: now.Add(ttl)}
+		// the message may already have expired while the entry is still kept (lazy cache entries)
+		stale := time.Duration(vrtBelow(2*86400)) * time.Second
+		it := &item{resp: vrtHdrMsg(vrtU16(), int(vrtU8()&0xf)), storedTime: now.Add(-age), expirationTime: now.Add(ttl - stale)}
 		e := vrtEnt{key: string([]byte{'k', byte('0' + i)}), it: it, cacheExp: now.Add(ttl + extra)}
 		src.backend.Store(key(e.key), it, e.cacheExp)
 		ents = append(ents, e)
